@@ -100,7 +100,15 @@ int main(int argc, char **argv) {
             };
             std::string ro = vf::guarded([&] { se.open(FileMode::ReadOnly); });
             if (!ro.empty()) vf::violation("C02|" + op_class(opname) + "|reopen ReadOnly|open fails", ro + " history " + ex::hist_str(E.alpha, p, op), "REPLAY " + rargs);
-            else { cmp(E.canon(se.file), "reopen ReadOnly"); se.close(); }
+            std::vector<Block> ro_blocks; std::vector<DataArray> ro_arrays; std::vector<Section> ro_sections;
+            if (ro.empty()) {
+                cmp(E.canon(se.file), "reopen ReadOnly");
+                // a rejected write in the read-only session, and handles of that session kept past its close, must not get in the way of the next open
+                vf::guarded([&] { ro_blocks = se.file.blocks(); ro_sections = se.file.sections(); for (auto &b : ro_blocks) for (auto &a : b.dataArrays()) ro_arrays.push_back(a); });
+                vf::guarded([&] { if (!ro_blocks.empty()) ro_blocks[0].type("refused"); });
+                vf::guarded([&] { if (!ro_sections.empty()) ro_sections[0].type("refused"); });
+                se.close();
+            }
             vf::set_clock(E.clock0 + 600);
             std::string rw = vf::guarded([&] { se.open(FileMode::ReadWrite); });
             if (!rw.empty()) vf::violation("C02|" + op_class(opname) + "|reopen ReadWrite|open fails", rw + " history " + ex::hist_str(E.alpha, p, op), "REPLAY " + rargs);
